@@ -238,7 +238,11 @@ def run(ctx):
         b.add("Constant", "delimited", False, "", rule, cells, [c == const for c in cells], tag="constant")
     b.add("Text", "delimited", False, "", "", ["x", " ", "anything at all", "é", "1"], [True] * 5, tag="text")
     # ---- DateTime --------------------------------------------------------------------------------------------------
-    layouts = ["DD.MM.YYYY", "YYYY-MM-DD", "MM/DD/YY", "YYYYMMDD", "DD.MM.YYYY hh:mm:ss", "hh:mm", "YYYY-MM-DD hh:mm", "DD.MM.YY", "hh:mm:ss", "DD-MM", "YY/MM/DD hh", "100% DD"]
+    layouts = ["DD.MM.YYYY", "YYYY-MM-DD", "MM/DD/YY", "YYYYMMDD", "DD.MM.YYYY hh:mm:ss", "hh:mm", "YYYY-MM-DD hh:mm", "DD.MM.YY", "hh:mm:ss", "DD-MM", "YY/MM/DD hh", "100% DD",
+               # layouts of the same shape as an earlier one with other placeholders: the same text means something else (or nothing) under them
+               "MM.DD.YYYY", "mm:ss", "YY.MM.DD", "DD/MM/YY", "ss:mm:hh"]
+    # texts every layout is asked about, whatever it looks like (one field's verdict must not depend on what another field has seen)
+    shared_cells = ["13.01.2020", "01.13.2020", "25.11.2023", "30:59", "59:30", "23:59", "12/31/99", "31/12/99", "23:59:60", "60:59:23", "20.12.31"]
 
     def render(layout, y, mo, d, h, mi, s):
         out = layout
@@ -284,8 +288,8 @@ def run(ctx):
             if rnd.random() < 0.3 and text:
                 k = rnd.randrange(len(text))
                 cells.append(text[:k] + rnd.choice("x9 -") + text[k + 1:]); expect.append(None)
-        cells += ["", "x", layout]
-        expect += [None, False, None]
+        cells += ["", "x", layout] + shared_cells
+        expect += [None, False, None] + [None] * len(shared_cells)
         for fmt in ("delimited", "excel"):
             b.add("DateTime", fmt, False, "", layout, cells + ([c + " 00:00:00" for c in cells[:8]] if fmt == "excel" else []),
                   expect + ([None] * 8 if fmt == "excel" else []), tag="datetime")
